@@ -97,6 +97,16 @@ func routeBinding(c *core.Ctx) {
 	c.Check(aa[2] == ssa.Value(mkLink), "the path is linked under its own path link", at(c, addLink), "", "pathLink argument is `"+core.Key(aa[2])+"`")
 	// error of the backend creation skips the link
 	c.Check(guardedBy(addLink, has("addBackendWithClass(", "#1 != nil)"), false), "a path whose backend could not be created is not linked", at(c, addLink), "", "AddLink is reachable on the error branch of addBackendWithClass")
+	// a redirect-to path gets no backend: after AddRedirect the iteration ends
+	if red := one("haproxy/types.Host).AddRedirect"); red != nil {
+		loop := core.InnermostLoop(fn, red.Block())
+		w := core.PathQuery{Fn: fn, Start: red, Target: func(in ssa.Instruction) bool { return in == ssa.Instruction(addLink) || in == ssa.Instruction(addBack) },
+			EdgeOK: func(from *ssa.BasicBlock, k int) bool { return loop == nil || from.Succs[k] != loop.Header }}.Find()
+		c.Check(w == nil, "a redirect-to path is not also given a backend", at(c, red), "", "after AddRedirect the same iteration can still create and link a backend for the path: the maps send the request to the backend instead of redirecting")
+		c.Check(guardedBy(red, has(`"redirect-to"]`, ` != "")`), true), "a path is a redirect only when redirect-to is declared", at(c, red), "", "AddRedirect is not on the `redirect-to != \"\"` branch")
+	} else {
+		c.Violated("redirect-to paths", c.Pos(fn.Pos()), "AddRedirect is not called exactly once")
+	}
 	// the duplicate test precedes every mutation of the host for this path
 	dup := one("haproxy/types.Host).FindPathWithLink")
 	if dup == nil {
